@@ -213,8 +213,8 @@ def run_nested(op1, shape, a, b, c, d, boost_code):
 def _mk_nested(op1):
     name = "c05_nest_" + "".join(ch if ch.isalnum() else "_" for ch in C.OPS[op1][0]).strip("_").lower()
 
-    @h(bounds="%s(X, d) and %s(d, X) with X in {Or(a,b,c^w) default and array matcher, And(a,Or(b,c^w)), Or(a,And(b,c^w))}, a,b,c,d over 6 leaves "
-              "(quick: 4), w in {1, 0.5}; k in 1..2; layouts/weightings/variants as above" % (C.OPS[op1][0], C.OPS[op1][0]),
+    @h(bounds="%s(X, d) and %s(d, X) with X in {Or(a,b,c^w) default and array matcher, And(a,Or(b,c^w)), Or(a,And(b,c^w))}, a,b,c,d over 4 leaves "
+              "(quick: 3), w in {1, 0.5}; k in 1..2; layouts/weightings/variants as above" % (C.OPS[op1][0], C.OPS[op1][0]),
        funcs=FUNCS + ["whoosh.matching.combo.ArrayUnionMatcher", "whoosh.matching.wrappers.FilterMatcher"],
        examples=[dict(shape=0, a=0, b=1, c=2, d=3, bc=1), dict(shape=5, a=3, b=2, c=1, d=0, bc=0)], outside=OUT,
        timeout=dict(quick=900, thorough=3000))
@@ -231,7 +231,7 @@ def _mk_nested(op1):
     return name, harness
 
 
-NNB = 4 if not THOROUGH else 6
+NNB = 3 if not THOROUGH else 4
 for _op in (0, 1, 3, 4, 5, 6):
     _n, _f = _mk_nested(_op)
     globals()[_n] = _f
